@@ -2888,7 +2888,7 @@ local JavaCode
 gj0DFlo(Foam foam)
 {
 	char buf[MAX_FLOAT_SIZE];
-	DFloatSprint(buf, foam->foamSFlo.SFloData);
+	DFloatSprint(buf, foam->foamDFlo.DFloData);
 	return jcLiteralFloatFrString(strCopy(buf));
 }
 
